@@ -11,7 +11,10 @@ Correspondence, every run:
     functions on stub operators and compared entry by entry with Model/Lut.lean; the Lean reference kernels
     (leakyReluRef, hardSwishRef, requantizeRef) judge the implementation's own tables;
   * sigmoid / tanh tables: the Lean handler evaluates the same formula with Lean `Float` (same libm); entries are
-    compared, +-1 differences are classified by the distance of the unrounded value from a rounding tie.
+    compared, +-1 differences are classified by the distance of the unrounded value from a rounding tie;
+  * harness/c19_more.py: SoftMax.generate_exp_table (model Model/SoftmaxTable.lean, reference Spec/SoftmaxRef.lean), the lut.py float
+    generators and the int16 SOFTMAX constants (Lean Float, validated), sibling runs with equal quantisation, Quantize folding through
+    the whole compiler; the RSQRT table is judged by the TFLite reference kernel of Spec/RsqrtRef.lean (rsqrtchk).
 """
 import linecache
 import math
@@ -868,7 +871,12 @@ def main():
         "unreached_branches": unreached + (["Err.overflow in downscale_multiplier_int32_to_int16 is proved unreachable (downscale_ok)"] if "err:overflow" in unreached else []),
         "trusted_base_extra": ["Lean `Float` = host IEEE-754 double; Float.exp/Float.tanh = the libm Python's math module uses (sigmoid/tanh tables are validated, not proved)",
                                "gemmlowp/TFLite reference kernels transcribed from memory into Spec/Gemmlowp.lean (sources not available offline)",
-                               "(multiplier, shift) pairs are captured from the real scaling.quantise_scale (property C09 covers their correctness)"],
+                               "(multiplier, shift) pairs are captured from the real scaling.quantise_scale (property C09 covers their correctness)",
+                               "Lean Float/Float32 arithmetic in the handlers: the double product beta*scale of the softmax model (the reference recomputes it exactly), "
+                               "the float32 sqrt/product of the RSQRT and int16-SOFTMAX multiplier references, the lut.py float tables (Handlers/LutFloat.lean, series erf)",
+                               "TFLite PreprocessSoftmaxScaling / CalculateInputRadius / GetInvSqrtQuantizedMultiplierExp / RsqrtEvalQuantized / gen_lut transcribed from memory "
+                               "(the inverse-sqrt transcription reproduces all 255 RSQRT_LUT constants, gen_lut all 1024 words of the int16 SOFTMAX tables)",
+                               "harness/netgen.py serialiser and harness/fbwalk.py reader for the pipeline-level Quantize folding stream"],
     }, assumptions=[
         "Python `//` by a positive int is floor division; `>>` on Python/NumPy signed ints is arithmetic; `&` with a non-negative mask is mod 2^n",
         "an exception raised on an `assert` line of fp_math.py (AssertionError, or OverflowError from np.intN(python_int)) is the function rejecting its operand",
